@@ -170,7 +170,7 @@ theorem updMark_good (st : State) (n : Name) (add : Bool) (ids : List Nat) (wf :
           obtain ⟨s', hs'⟩ := inherit_isSome { st with tags := tset st.tags n nt } hw
           rw [hs']
           dsimp only
-          have hw' : Pk.Proofs.TagGraph.GraphWF (tmod s'.tags n fun x => { x with uncertain := [] }) := by
+          have hw' : Pk.Proofs.TagGraph.GraphWF (tmod s'.tags n fun x => { x with uncertain := t.uncertain }) := by  -- CHANGED (prevUncertain)
             apply GraphWF.congr _ hw
             intro k
             refine Eq.trans ?_ (gview_inherit _ _ hs' k)
